@@ -144,6 +144,19 @@ def run(ctx):
     n9 = 0
     for a in allows:
         recv = f.root_local(a.args[0], through_calls=(r'::deref$', r'::as_ref$'))
+        # a bundle of shared references handed to a per-call helper (`env.tool_choice`): follow the field to what was put into it
+        cur9 = a.args[0]
+        for _ in range(4):
+            o9 = f.origin(cur9, through_calls=(r'::deref$', r'::as_ref$'))
+            if o9[0] != 'local':
+                break
+            names9 = [pp.get('n') for pp in o9[2] if isinstance(pp, dict) and 'n' in pp]
+            ds9 = [d for d in f.defs(o9[1]) if d[2] == 'rv']
+            if names9 and len(ds9) == 1 and ds9[0][3]['k'] == 'agg' and names9[0] in (ds9[0][3].get('fields') or []):
+                cur9 = ds9[0][3]['a'][ds9[0][3]['fields'].index(names9[0])]
+                recv = f.root_local(cur9, through_calls=(r'::deref$', r'::as_ref$'))
+                continue
+            break
         if recv is None:
             continue
         n9 += 1
